@@ -438,7 +438,7 @@ func gen(t *rapid.T) Case {
 }
 
 func TestComplexity(t *testing.T) {
-	vfrun.Run(t, vfrun.Prop[Case]{Property: "C14", Name: "TestComplexity", Gen: gen, Check: check}, vfrun.N(4000, 300000))
+	vfrun.Run(t, vfrun.Prop[Case]{Property: "C14", Name: "TestComplexity", Gen: gen, Check: check}, vfrun.N(4000, 1500000))
 }
 
 // TestSafeAddGrid reaches the saturating addition black-box: '{ s i }' with constant custom costs
